@@ -45,6 +45,7 @@ CORE_NAMES = {
     144: "C08: Leave did not record the node as left", 145: "C08: departure broadcast is not the node's own leave message",
     146: "C08: the leaver queued an alive message newer than its departure",
     147: "C01/C08: an accepted departure/death was not recorded at its incarnation and state (left vs failed)",
+    148: "C08: Leave returned without error while it listed a peer that is neither dead nor gone and its departure had not been handed out to a single packet",
     150: "C18: record with an address outside the allow-list", 151: "C18: alive from a disallowed source had an effect",
     152: "C18: event announced an address outside the allow-list", 153: "C18: Members() lists an address outside the allow-list",
     160: "C06: suspicion timer registered iff suspect is broken", 161: "C06: declared dead before the minimum / still suspect after the maximum timeout",
